@@ -432,6 +432,10 @@ class Interp:
                 return m[0]
             if name == '__name__':
                 return obj.name.split('::')[-1].split('.')[-1]
+            if isinstance(obj.info, ClassInfo) and all(
+                    isinstance(c, ClassInfo) or c.split('.')[-1].split('[')[0] in ('object', 'ABC', 'Protocol', 'Generic', 'Exception', 'BaseException')
+                    for c in self.repo.mro(obj.info)):
+                self.raise_builtin('AttributeError', f'{obj}.{name}')
             raise Unsupported(f'class attribute {obj}.{name}')
         if isinstance(obj, LibRef):
             if obj.name.startswith('repo:'):
